@@ -1869,7 +1869,9 @@ type Data struct {
 
 	mlMu sync.RWMutex // For atomic access of MaxLabel and MaxRepoLabel
 
-	voxelMu sync.Mutex // Only allow voxel-level and label index (merge, cleave, renumber) mutation ops sequentially.
+	voxelMu sync.Mutex // Only allow voxel-level label mutation ops sequentially.
+
+	labelMu sync.Mutex // Only allow label index (merge, cleave, renumber) mutation ops sequentially.
 }
 
 // --- Override of DataService interface ---
